@@ -87,7 +87,7 @@ def oCrash (sys : USys) (states : Array USt) (recs : Array (List Tr)) : String :
 def handle : Drv.Handler
   | "reach", [sys, bound] => do
     let sys ← sys? sys; let bound ← bound.nat?
-    match walk sys bound with
+    match SR.ReachRef.walkT sys bound with
     | none => pure "panic"
     | some w =>
       if w.records.size != w.states.size then pure "open"
@@ -103,7 +103,7 @@ def handle : Drv.Handler
   | "o-reach", [sys, bound, visited] => do
     let sys ← sys? sys; let bound ← bound.nat?
     let visited ← visited.list?
-    match walk sys bound with
+    match SR.ReachRef.walkT sys bound with
     | none => pure "reference semantics panics"
     | some w =>
       if w.records.size != w.states.size then pure "reference reachable set not closed under the bound"
